@@ -1,0 +1,12 @@
+//go:build verif
+
+// Contracts for package rtimer (properties C08, C09), checked by /verif/govc. Comments only.
+
+package rtimer
+
+// After returns a channel that becomes ready after about t; it changes no memory visible to its caller
+// (trusted: the time wheel is shared state behind a lock).
+//
+//@ func After
+//@   trusted
+//@   allocates
